@@ -312,6 +312,27 @@ MUTANTS = [
     ('C12', 'abort-leaves-savepoint-store', CN,
      "            self._abort(self._savepoint_storage.creating)\n            self._abort_savepoint()",
      "            self._abort(self._savepoint_storage.creating)"),
+    ('C15', 'at-is-exclusive', DBF,
+     "        before = at.laterThan(at).raw()",
+     "        before = at.raw()"),
+    ('C15', 'historical-load-current', MV,
+     "        r = self._storage.loadBefore(oid, self._before)\n        if r is None:\n            raise POSException.POSKeyError(oid)",
+     "        r = self._storage.loadBefore(oid, b'\\x7f' + b'\\xff' * 7)\n        if r is None:\n            raise POSException.POSKeyError(oid)"),
+    ('C15', 'historical-commit-allowed', CN,
+     "        if self.before is not None:\n            raise ReadOnlyHistoryError()",
+     "        if False:\n            raise ReadOnlyHistoryError()"),
+    ('C15', 'future-not-refused', DBF,
+     "            raise ValueError(\n                'cannot open an historical connection in the future.')",
+     "            pass"),
+    ('C15', 'historical-pool-wrong-key', DBF,
+     "                result = self.historical_pool.pop(before)\n                if result is None:",
+     "                result = self.historical_pool.pop(max(self.historical_pool.pools) if self.historical_pool.pools else before)\n                if result is None:"),
+    ('C15', 'historical-new-oid-allowed', MV,
+     "    new_oid = pack = store = read_only_writer\n",
+     "    pack = store = read_only_writer\n\n    def new_oid(self):\n        return self._storage.new_oid()\n"),
+    ('C15', 'datetime-drops-microseconds', DBF,
+     "    args = utc_struct[:5] + (utc_struct[5] + dt.microsecond / 1000000.0,)",
+     "    args = utc_struct[:5] + (utc_struct[5],)"),
 ]
 
 
